@@ -70,3 +70,19 @@ Theorem C06_header_table_well_formed :
   forallb (fun c => existsb (fun e => fst e =? c) varsig_headers) emit_codes = true.
 Proof. exact (conj headers_shape headers_cover_emitted). Qed.
 Print Assumptions C06_header_table_well_formed.
+
+(* C06 end to end, with the unforgeability of the signature scheme as an explicit premise: if the only
+   messages that verify under a principal's key are encodings of the signed parts that principal produced,
+   then the signed part of every accepted envelope (header, tag, payload) is one of those, up to the order of
+   map entries - whatever was done to the bytes on the way *)
+Theorem C06_accepted_content_was_signed_by_the_issuer : forall verify header_of (signed : did -> list node),
+  (forall d m s, verify d m s = true -> exists sp, In sp (signed d) /\ wf sp /\ m = encode sp) ->
+  forall (A : Type) (bind : node -> res A) tag n a,
+  wf n -> env_decode verify header_of A bind tag n = Ok a ->
+  exists sg hdr m d sp iss pm pl,
+    n = List [Bytes sg; Map m] /\
+    (m = [(hdr_key, Bytes hdr); (tag, pl)] \/ m = [(tag, pl); (hdr_key, Bytes hdr)]) /\ pl = Map pm /\
+    map_get (lit "iss") pm = Some (Str iss) /\ did_parse iss = Ok d /\
+    In sp (signed d) /\ canon sp = canon (Map m) /\ bind pl = Ok a.
+Proof. exact accepted_content_was_signed. Qed.
+Print Assumptions C06_accepted_content_was_signed_by_the_issuer.
